@@ -169,6 +169,15 @@ class ReqPathRun(object):
                                      **plan.get('cluster_kw', {}))
             for k_, v_ in plan.get('cluster_attrs', {}).items():
                 setattr(cluster, k_, v_)
+            pv2 = plan.get('pool_v2')
+            if pv2 and plan.get('version', 4) < 3:
+                # protocol 1/2: HostConnectionPool with several connections per host, grown and trashed by load
+                L = w.cpol.HostDistance.LOCAL
+                cluster.set_min_requests_per_connection(L, pv2['min_req'])      # (each setter validates against the other's current value)
+                cluster.set_max_requests_per_connection(L, pv2['max_req'])
+                cluster.set_max_connections_per_host(L, pv2['max'])
+                cluster.set_core_connections_per_host(L, pv2['core'])
+                w.sim.probe('host_connection_pool_v2')
             session = cluster.connect(plan.get('session_keyspace'), wait_for_all_pools=True)
         except Exception as e:
             self.connect_error = repr(e)
@@ -199,6 +208,11 @@ class ReqPathRun(object):
             fc.rst_conns(f['node'], 'all')
         elif k == 'crash':
             fc.crash(f['node'], how=f.get('how', 'rst'), announce=f.get('announce'))
+            rto = self.plan.get('tcp_rto')
+            if rto and f.get('how') == 'blackhole':
+                # a black-holed peer never answers, but TCP does not wait for ever: unacknowledged data is retransmitted until the
+                # kernel gives up and errors the connection (tcp_retries2); without this an untimed driver wait would have no end
+                self.w.sim.at(rto, (lambda i=f['node']: fc.rst_conns(i, 'all')), 'tcp retransmission timeout n%d' % f['node'])
         elif k == 'restart':
             fc.restart(f['node'], announce=f.get('announce'))
         elif k == 'stall':
@@ -263,8 +277,24 @@ class ReqPathRun(object):
         return [e for e in self.w.fc.all_logs() if e.get('rid') == rid and e.get('kind')]
 
 
-def base_plan(rng, nodes=None, version=None):
+def base_plan(rng, nodes=None, version=None, legacy_p=0.0):
     n = nodes or rng.choice([1, 2, 3, 4])
     v = version or rng.choice([3, 4, 4, 5])
     spec = default_cluster_spec(n, versions=(3, 4, 5))
-    return {'cluster': spec, 'version': v, 'contact': [0], 'requests': [], 'faults': [], 'nthreads': 1, 'exec': {}}
+    p = {'cluster': spec, 'version': v, 'contact': [0], 'requests': [], 'faults': [], 'nthreads': 1, 'exec': {}}
+    if version is None and legacy_p and rng.random() < legacy_p:
+        make_legacy(p, rng)
+    return p
+
+
+def make_legacy(p, rng):
+    """Protocol 2 against a Cassandra 2.1 personality: the session uses HostConnectionPool (several connections per host)."""
+    p['version'] = 2
+    for nd in p['cluster']['nodes']:
+        nd['release'] = '2.1.15'
+        nd['versions'] = [1, 2, 3]
+    core = rng.choice([1, 1, 2])
+    mx = rng.choice([core, core + 1, core + 2])
+    max_req = rng.choice([2, 3, 5, 10])
+    p['pool_v2'] = {'core': core, 'max': mx, 'max_req': max_req, 'min_req': rng.randrange(0, max_req)}
+    return p
